@@ -45,10 +45,14 @@ fn own_monitors_for(prop: &str) -> Vec<Box<dyn Monitor>> {
             Box::new(Relabel { inner: Box::new(mon::life::Life::default()), to: "C04", prefix: "" }),
         ],
         "C05" => vec![Box::new(mon::econ::C05::default())],
-        "C06" => vec![Box::new(mon::econ::C06::default())],
+        // a liquidation is judged, and paid out, from the stored position: margin, open notional and funding checkpoint are
+        // "the position's" only if every earlier owner operation booked them correctly (a wrong value written by a partial
+        // close is consumed by a liquidation much later) - the per-operation ledger of C11 runs as an auxiliary oracle
+        "C06" => vec![Box::new(mon::econ::C06::default()), Box::new(Relabel { inner: Box::new(mon::econ2::C11::default()), to: "C06", prefix: "ledger:" })],
         "C07" => vec![Box::new(mon::econ2::C07::default())],
         "C11" => vec![Box::new(mon::econ2::C11::default())],
-        "C12" => vec![Box::new(mon::econ2::C12::default())],
+        // the fee of a close is charged on the stored open notional: same auxiliary ledger
+        "C12" => vec![Box::new(mon::econ2::C12::default()), Box::new(Relabel { inner: Box::new(mon::econ2::C11::default()), to: "C12", prefix: "ledger:" })],
         "C14" => vec![Box::new(mon::rules::C14::default())],
         "C15" => vec![Box::new(mon::rules::C15::default())],
         "C16" => vec![Box::new(mon::rules::C16::default())],
